@@ -233,6 +233,17 @@ func (r *Real) Exec(o model.Op) (panicked bool, ret any, pmsg any) {
 		return false, nil, nil
 	}
 	switch o.Op {
+	case "IndexOf":
+		return false, r.Fwd[o.R].(at.List).IndexOf(r.arg(o.V)), nil
+	case "Contains":
+		switch a := r.Fwd[o.R].(type) {
+		case at.List:
+			return false, a.Contains(r.arg(o.V)), nil
+		case at.Object:
+			return false, a.Contains(r.arg(o.V)), nil
+		}
+	case "KeyOf":
+		return false, r.Fwd[o.R].(at.Object).KeyOf(r.arg(o.V)), nil
 	case "Equals":
 		switch a := r.Fwd[o.R].(type) {
 		case at.List:
